@@ -61,6 +61,8 @@ def run_nndvi(p, script, seed=0):
     from menelaus.data_drift import NNDVI
     from menelaus.partitioners import NNSpacePartitioner
     det = NNDVI(k_nn=p["k_nn"], sampling_times=p["sampling_times"], alpha=p["alpha"])
+    from .containers import feeder_of
+    feeder = feeder_of(p, "array")
     seen = {}
     try:  # observe the threshold by wrapping the static helper on this instance (optional)
         orig = NNDVI._compute_drift_threshold
@@ -83,7 +85,7 @@ def run_nndvi(p, script, seed=0):
     for t, s in enumerate(script):
         np.random.seed((seed * 7919 + t) % (2 ** 32))
         if s[0] == "set_reference":
-            det.set_reference(np.array(s[1], dtype=float))
+            det.set_reference(feeder.batch(s[1]))
             e = {"op": "set_reference", "data": s[1], "ref": refrows()}
         elif s[0] == "reset":
             det.reset()
@@ -95,7 +97,7 @@ def run_nndvi(p, script, seed=0):
             nn.build(ref_before, X)
             part = part_record(nn)
             seen.pop("theta", None)
-            det.update(X)
+            det.update(feeder.batch(s[1]))
             lo, hi = theta_bracket(part, p["k_nn"], p["sampling_times"], p["alpha"], seed + t)
             e = {"op": "update", "data": s[1], "part": part, "ref": refrows(),
                  "th": {"theta": num(seen["theta"]) if "theta" in seen else "NA", "lo": num(lo), "hi": num(hi)}}
